@@ -7,6 +7,7 @@ import (
 	"fmt"
 	"hash/fnv"
 	"os"
+	"reflect"
 	"runtime/debug"
 	"sort"
 	"strconv"
@@ -26,6 +27,7 @@ type ginfo struct {
 	name   string
 	locks  int
 	spawns map[string]int
+	dead   bool
 }
 
 type parked struct {
@@ -152,6 +154,7 @@ func BeforeGo(site string) *SpawnTok {
 	if !active.Load() {
 		return nil
 	}
+	spawned.Store(true)
 	g := cur()
 	k := g.spawns[site]
 	g.spawns[site] = k + 1
@@ -166,6 +169,82 @@ func GoStart(tok *SpawnTok) {
 	}
 	register(tok.name)
 	Yield("start")
+}
+
+// GoEnd is deferred in the wrapper of every spawned goroutine.
+func GoEnd() {
+	if !active.Load() {
+		return
+	}
+	g := cur()
+	mu.Lock()
+	g.dead = true
+	mu.Unlock()
+}
+
+// ---------------------------------------------------------------- shared-map discipline
+//
+// The Go runtime aborts the process ("fatal error: concurrent map writes" / "concurrent map read and map write") when
+// two goroutines are inside the map implementation at once. With execution serialised that can never happen in a
+// simulated run, so the condition that makes it possible is checked instead, on every access the instrumenter sees to
+// a package-level map: two goroutines which are alive at the same time access the same map object, at least one of
+// them writes, and at least one of the two accesses is made without any mutex held. (Accesses made before the first
+// goroutine is spawned - initialisation - are ignored; a goroutine that has ended hands its maps over.)
+
+type mapRec struct {
+	g        *ginfo
+	wrote    bool
+	unlocked bool
+	site     string
+}
+
+var (
+	spawned   atomic.Bool
+	mapAccs   = map[uintptr][]*mapRec{}
+	mapRaces  []string
+	mapRaceOf = map[string]bool{}
+)
+
+func MapAccess(m interface{}, name string, write bool, site string) {
+	if !active.Load() || !spawned.Load() {
+		return
+	}
+	v := reflect.ValueOf(m)
+	if v.Kind() != reflect.Map || v.IsNil() {
+		return
+	}
+	p := v.Pointer()
+	g := cur()
+	locked := g.locks > 0
+	mu.Lock()
+	defer mu.Unlock()
+	var mine *mapRec
+	for _, r := range mapAccs[p] {
+		if r.g == g {
+			mine = r
+			continue
+		}
+		if r.g.dead {
+			continue
+		}
+		if (write || r.wrote) && (!locked || r.unlocked) && !mapRaceOf[name] {
+			mapRaceOf[name] = true
+			how := map[bool]string{true: "writes", false: "reads"}
+			mapRaces = append(mapRaces, fmt.Sprintf("%s: %s %s at %s (mutex held: %v) while %s, still running, %s it at %s (without mutex: %v)",
+				name, g.name, how[write], site, locked, r.g.name, how[r.wrote], r.site, r.unlocked))
+		}
+	}
+	if mine == nil {
+		mine = &mapRec{g: g}
+		mapAccs[p] = append(mapAccs[p], mine)
+	}
+	if write {
+		mine.wrote = true
+	}
+	if !locked {
+		mine.unlocked = true
+	}
+	mine.site = site
 }
 
 // GoPanic is called from the recover() wrapper the instrumenter puts around
@@ -259,24 +338,25 @@ type Config struct {
 }
 
 type Outcome struct {
-	Status     string         `json:"status"` // returned | exit | crash | deadlock | livelock | panic
-	ExitCode   int            `json:"exit_code"`
-	ExitStack  string         `json:"exit_stack,omitempty"`
-	CrashWhy   string         `json:"crash_why,omitempty"`
-	PanicText  string         `json:"panic_text,omitempty"`
-	Steps      int            `json:"steps"`
-	Ticks      int64          `json:"ticks"`
-	Branching  int            `json:"branching"` // steps with >= 2 candidates
-	SelectN    int            `json:"selects"`   // multi-way select draws
-	TraceHash  string         `json:"trace_hash"`
-	States     int            `json:"abstract_states"`
-	StateHashes []uint64      `json:"state_hashes,omitempty"`
-	Goroutines []string       `json:"goroutines"`
-	Sites      map[string]int `json:"sites"`
-	Trace      []string       `json:"trace,omitempty"`
-	Choices    []int          `json:"choices,omitempty"`
-	Blocked    []string       `json:"blocked,omitempty"` // at deadlock: names seen but not finished
-	Idle       int            `json:"idle_events"`
+	Status      string         `json:"status"` // returned | exit | crash | deadlock | livelock | panic
+	ExitCode    int            `json:"exit_code"`
+	ExitStack   string         `json:"exit_stack,omitempty"`
+	CrashWhy    string         `json:"crash_why,omitempty"`
+	PanicText   string         `json:"panic_text,omitempty"`
+	Steps       int            `json:"steps"`
+	Ticks       int64          `json:"ticks"`
+	Branching   int            `json:"branching"` // steps with >= 2 candidates
+	SelectN     int            `json:"selects"`   // multi-way select draws
+	TraceHash   string         `json:"trace_hash"`
+	States      int            `json:"abstract_states"`
+	StateHashes []uint64       `json:"state_hashes,omitempty"`
+	Goroutines  []string       `json:"goroutines"`
+	Sites       map[string]int `json:"sites"`
+	Trace       []string       `json:"trace,omitempty"`
+	Choices     []int          `json:"choices,omitempty"`
+	Blocked     []string       `json:"blocked,omitempty"` // at deadlock: names seen but not finished
+	Idle        int            `json:"idle_events"`
+	MapRaces    []string       `json:"map_races,omitempty"` // shared-map discipline violations (see MapAccess)
 }
 
 // idle handlers, tried in order when nothing is parked
@@ -592,6 +672,9 @@ func Run(cfg Config, wait func(), sut func()) *Outcome {
 	out.CrashWhy = crashWhy
 	out.PanicText = panicText
 	out.Ticks = ticks.Load()
+	mu.Lock()
+	out.MapRaces = append([]string{}, mapRaces...)
+	mu.Unlock()
 	out.TraceHash = fmt.Sprintf("%016x", th.Sum64())
 	out.States = len(states)
 	if cfg.WantTrace {
